@@ -783,6 +783,7 @@ def check_C03(res):
         "traces_validated_against_impl": r["traces"],
         "samples": [traces[i].describe() for i in (0, len(traces) // 2)],
         "l2": r["summary"]})
+    res.coverage["rule"] += '; plus a configuration with several configured users in which one user name is defined twice before the probed one (each configured user is held to its own password)'
     res.assumptions = ["argon2 verification is a parameter (verify) of the model; the driver instantiates it with the table of hashes computed by the real argon2_hash_password"]
 
 
@@ -1132,6 +1133,7 @@ def check_C01(res):
         "traces_validated_against_impl": r["traces"],
         "samples": [sweep[0].describe()["events"][20:26], r["trace_objs"][-1].describe()["events"][:12]],
         "l2": r["summary"]})
+    res.coverage["rule"] += '; plus JOIN lists that repeat a name before a fresh one followed by messages to the old channel, under the admission oracle'
     res.assumptions = ["per-step drain of every queue (FIFO marker) makes deliveries of one command observable as one multiset per connection; drain order is C18's subject"]
 
 
@@ -1204,6 +1206,7 @@ def check_C10(res):
         "traces_validated_against_impl": r["traces"],
         "samples": [sweep[-1].describe()["events"][20:26]],
         "l2": r["summary"]})
+    res.coverage["rule"] += "; plus AWAY texts replaced while away / cleared / kept over a nick change with the history-based 301 clause, and status-prefixed targets whose channel name has a dot, is local or non-ASCII ('well-formed targets are not a syntax error, for NOTICE no more than for PRIVMSG')"
 
 
 # ====================================================================== C07 / C16
@@ -1429,6 +1432,7 @@ def check_C07(res):
         "traces_validated_against_impl": r["traces"],
         "samples": [sweep[3].describe()["events"][8:], sweep[-1].meta],
         "l2": r["summary"]})
+    res.coverage["rule"] += "; plus lists of keyed channels with the keys swapped, shifted, missing or empty at a position ('the key at its own position')"
 
 
 def c16_traces(res):
@@ -1670,6 +1674,7 @@ def check_C16(res):
         "traces_validated_against_impl": r["traces"],
         "samples": [sweep[7].describe()["events"][10:]],
         "l2": r["summary"]})
+    res.coverage["rule"] += '; plus JOIN lists repeating a name before further names, JOINs of a new name refused by the quota (nothing is created, the next joiner is founder), and mask-list queries on configured channels'
 
 
 # ====================================================================== C09
@@ -1898,6 +1903,7 @@ def check_C09(res):
         "traces_validated_against_impl": r["traces"],
         "samples": [sweep[5].describe()["events"][12:], sweep[5].meta],
         "l2": r["summary"]})
+    res.coverage["rule"] += "; plus invitations that did not admit (JOIN refused by limit, quota or key) and must still be there when the obstacle is gone; the configured-rank clause (every list a nick stands in) applies to the sweep's channels"
 
 
 # ====================================================================== C08
@@ -2238,6 +2244,7 @@ def check_C08(res):
         "traces_validated_against_impl": r["traces"],
         "samples": [sweep[1].describe()["events"][10:16], sweep[1].meta],
         "l2": r["summary"]})
+    res.coverage["rule"] += "; the MODE oracle also counts one ERR_CHANOPRIVSNEEDED per letter the member's rank does not suffice for, and a member who asks for a mask list is shown exactly the masks in force"
 
 
 # ====================================================================== generic state oracles
@@ -3040,6 +3047,7 @@ def check_C04(res):
         "traces_validated_against_impl": r["traces"],
         "samples": [probing[0].describe()["events"][8:24]],
         "l2": r["summary"]})
+    res.coverage["rule"] += "; plus local ('&') channels in all three views, PART lists that name a channel twice or more (with the closed-only-by-protocol oracle), nick changes to 200 / 201 / 243 characters with the clause 'the nick an announcement tells is the one the views list', and 'the view of an existing channel is never refused as malformed'"
 
 
 # ====================================================================== C05
@@ -3300,6 +3308,7 @@ def check_C05(res):
         "traces_validated_against_impl": r["traces"], "abort_sites_in_source": inv["count"], "abort_sites_new": inv["new"],
         "samples": [traces[0].describe()["events"][20:30]],
         "l2": r["summary"]})
+    res.coverage["rule"] += '; plus MODE strings whose letters take parameters (+kl, +lk, +klb, +ok ...) sent by members of every rank: a letter the sender may not use must not shift the parameters of the letters behind it'
 
 
 def panic_inventory():
@@ -4099,6 +4108,7 @@ def check_C12(res):
         "traces_validated_against_impl": r["traces"],
         "samples": [pairs[0][0].describe()["events"][18:30]],
         "l2": r["summary"]})
+    res.coverage["rule"] += '; plus former members as outsiders: the last member of a configured or ordinary channel leaves by PART / KICK, an invisible user joins, the former member asks'
     res.assumptions = ["403 vs 404/442 on PRIVMSG/MODE/TOPIC and LUSERS' channel count do reveal existence; the property restricts itself to LIST/NAMES/WHO/WHOIS and speaking"]
 
 
@@ -5319,6 +5329,7 @@ def check_C20(res):
         "traces_validated_against_impl": r["traces"], "validation_outcomes": dict(reasons),
         "samples": [{"config": cases[0][0], "cli": cases[0][1], "impl": fi[0][:160]}, started[:3]],
         "binary_cases": started, "binary_objections_rerun": binary_rerun, "l2": r["summary"]})
+    res.coverage["rule"] += '; plus configured mask lists (ban / exception / invite-exception) shown to a member who asks, next to masks added by MODE'
     res.assumptions = ["TOML syntax and field types are serde's: only accepted/rejected is compared for files that do not deserialize",
                        "671 (secure connection) lines are excluded from the plain/TLS comparison: they describe the transport"]
 
